@@ -239,6 +239,51 @@ func runC08(c *Ctx) {
 		}
 		c.Check(n >= 4, "C08.PARTREAD", "LocalBackend|plain-readers", 0, fmt.Sprintf("%d plain readers inspected", n), "plain reader methods not found")
 	}
+	c.Rule("C08.ROOTKEY", "FLOW+DOM: the methods that name an object (Write, WriteReader, AppendReader, StatFile, ReadToAt — the ones that form or probe `<path>.part`) take their path from a validator that also refuses a key resolving to the storage root itself: for the root, the staging path `<root>.part` is a sibling of the root directory, outside it")
+	{
+		refusesRoot := func(w *ssa.Function) bool {
+			if w == nil {
+				return false
+			}
+			for _, in := range instrs(w, false) {
+				bo, ok := in.(*ssa.BinOp)
+				if !ok || bo.Op != token.EQL {
+					continue
+				}
+				isBase := func(v ssa.Value) bool {
+					sn, fld, _, ok := loadedField(v)
+					return ok && sn == "LocalBackend" && fld == "basePath"
+				}
+				if !(isBase(bo.X) || isBase(bo.Y)) {
+					continue
+				}
+				// the equal side must return an error
+				if ifi, ok := lastIf(bo.Block()); ok && ifi.Cond == ssa.Value(bo) {
+					for _, in2 := range ifi.Block().Succs[0].Instrs {
+						if r, ok := in2.(*ssa.Return); ok && len(r.Results) == 2 && !isNilConst(r.Results[1]) {
+							return true
+						}
+					}
+				}
+			}
+			return false
+		}
+		for _, name := range []string{"Write", "WriteReader", "AppendReader", "StatFile", "ReadToAt"} {
+			fn := c.P.Func("(*internal/storage.LocalBackend)." + name)
+			if fn == nil {
+				c.Unk("C08.ROOTKEY", name+"|function", 0, "method not found")
+				continue
+			}
+			ok := false
+			direct := len(findCalls(fn, false, validatePathName)) > 0
+			for _, call := range validatorWrapperCalls(fn) {
+				if refusesRoot(call.Common().StaticCallee()) {
+					ok = true
+				}
+			}
+			c.Check(ok && !direct, "C08.ROOTKEY", name+"|object-key-not-root", fn.Pos(), "path comes from a validator that refuses the root itself", name+" validates its key with plain validatePath, which accepts \"\", \".\" and \"/\" (they resolve to the root, as listing needs): the staging file of such a key is `<root>.part`, outside the storage root")
+		}
+	}
 	c.Rule("C08.CONF", "DOM: every nil-error return of validatePath is guarded by a sound containment test of the absolute path against basePath (filepath.Rel + '..' prefix test, filepath.IsLocal, or a prefix test that includes the separator), and returns the tested value")
 	c.Rule("C08.ATOMIC", "WHO+DOM: in Write/WriteReader/AppendReader the final path is only ever the destination of os.Rename (data goes to a temp/.part file), and each such rename is reached only after every dominating write/copy and the file Close returned nil (AppendReader: also written == appendSize)")
 	c.Rule("C08.MANIFEST", "PASS: every store into the FSM's files map is preceded on every path by ValidateManifestPath of the stored path returning nil")
